@@ -1,5 +1,7 @@
 """C19 — named args: text, ordered pairs, one JSON object per line (DESIGN §4 C19)."""
+import os
 import re
+import qlib
 from qlib import (peel_not, AnalysisBroken, strip, isnode, walk, is_call, norm_cmp, var_ref, is_null, const_val, short, call_obj,
                   expr_key, field_name, is_this_field)
 from rules.common import (straight_after, core_and_neg, tnode, other, cpos, npos, branches_on_call, in_subtree, need_some, loops_enclosing)
@@ -33,6 +35,7 @@ def run(ctx):
     r3(ctx, facts)
     r4(ctx, facts)
     r5_placeholder_scanner(ctx, facts)
+    r6_named_flag_witness(ctx)
 
 
 def r1(ctx):
@@ -304,6 +307,100 @@ def r5_placeholder_scanner(ctx, facts):
     ok_c = len(tail) >= 2
     ctx.ob("C19.R5c", "_process_named_args_format_message:literal-text-kept", ok_c,
            "the text between placeholders and the tail after the last one are copied from the template (%d copies)" % len(tail), fn=f)
+
+
+TEMPLATE_ALPHABET = ["{", "}", "a", "_", "0", ":", " "]
+
+
+def _ref_named(s):
+    """fmt's grammar, restricted to the property's domain. Returns None when s is outside the domain (malformed for fmt, nested
+    fields, or a field that is not a named placeholder), else the number of named placeholders."""
+    i, n, named = 0, len(s), 0
+    while i < n:
+        c = s[i]
+        if c == "{":
+            if i + 1 < n and s[i + 1] == "{":
+                i += 2
+                continue
+            j = s.find("}", i + 1)
+            if j == -1:
+                return None
+            content = s[i + 1:j]
+            if "{" in content:
+                return None
+            aid = content.split(":", 1)[0]
+            if aid and (aid[0].isalpha() or aid[0] == "_") and all(ch.isalnum() or ch == "_" for ch in aid):
+                named += 1
+            else:
+                return None  # positional / indexed fields: not a 'template with named placeholders'
+            i = j + 1
+        elif c == "}":
+            if i + 1 < n and s[i + 1] == "}":
+                i += 2
+                continue
+            return None
+        else:
+            i += 1
+    return named
+
+
+def r6_named_flag_witness(ctx):
+    """R6: compile-time witness. MacroMetadata::_contains_named_args is constexpr, so the compiler itself evaluates it: a generated
+    translation unit static_asserts, for every template over a 7-symbol alphabet up to length N that lies in the property's domain
+    (well-formed for fmt, every placeholder named, escaped braces anywhere), that the flag is 'true' iff the template has a named
+    placeholder. A violating header fails to build; nothing is executed."""
+    import itertools, subprocess, hashlib
+    N = 6 if ctx.tier == "quick" else 7
+    rows = []
+    for L in range(0, N + 1):
+        for t in itertools.product(TEMPLATE_ALPHABET, repeat=L):
+            s_ = "".join(t)
+            k = _ref_named(s_)
+            if k is not None:
+                rows.append((s_, k > 0))
+    os.makedirs(qlib.CACHE, exist_ok=True)
+    src = os.path.join(qlib.CACHE, "namedflag-%d.cpp" % N)
+    step = 256
+    def write(path, per_row_from=None):
+        with open(path, "w") as fh:
+            fh.write('#include "quill/core/MacroMetadata.h"\n#include <string_view>\nusing M = quill::MacroMetadata;\n'
+                     'struct Row { std::string_view t; bool named; };\nconstexpr Row rows[] = {\n')
+            for (t, nm) in rows:
+                fh.write('  {"%s", %s},\n' % (t, "true" if nm else "false"))
+            fh.write('};\nconstexpr int first_mismatch(int from, int to) { for (int i = from; i < to; ++i) '
+                     'if (M::_contains_named_args(rows[i].t) != rows[i].named) return i; return -1; }\n')
+            if per_row_from is None:
+                for a in range(0, len(rows), step):
+                    fh.write('static_assert(first_mismatch(%d, %d) == -1, "chunk %d");\n' % (a, min(len(rows), a + step), a))
+            else:
+                for i in range(per_row_from, min(len(rows), per_row_from + step)):
+                    fh.write('static_assert(M::_contains_named_args(rows[%d].t) == rows[%d].named, "row %d");\n' % (i, i, i))
+    def compile_(path):
+        cmd = ["clang++", "-std=gnu++17", "-fsyntax-only", "-fno-access-control", "-fconstexpr-steps=400000000", "-ferror-limit=0", "-w",
+               "-I" + qlib.SRC, path]
+        r = subprocess.run(cmd, capture_output=True, text=True)
+        return r.returncode, r.stderr
+    write(src)
+    rc, err = compile_(src)
+    bad_chunks = sorted(set(int(m) for m in re.findall(r'static_assert failed[^\n]*"chunk (\d+)"', err)))
+    if rc != 0 and not bad_chunks:
+        raise AnalysisBroken("named-flag witness does not compile against the current tree: " + err[:600])
+    ctx.units.add(("namedflag-witness(len<=%d)" % N, "A"))
+    ctx.floor("C19.R6", "templates in the witness table", len(rows), 1000)
+    examples = []
+    for a in bad_chunks[:3]:
+        p2 = os.path.join(qlib.CACHE, "namedflag-%d-rows.cpp" % N)
+        write(p2, per_row_from=a)
+        rc2, err2 = compile_(p2)
+        for m in re.findall(r'static_assert failed[^\n]*"row (\d+)"', err2)[:4]:
+            t, nm = rows[int(m)]
+            examples.append("'%s' (has a named placeholder: %s, flag says %s)" % (t, nm, not nm))
+    ctx.ob("C19.R6", "MacroMetadata::_contains_named_args:agrees-with-fmt-grammar", not bad_chunks,
+           "compile-time witness over all %d templates of length <= %d over %s that are well-formed for fmt and whose placeholders are all "
+           "named: the constexpr flag computed by the compiler is true exactly when the template has a named placeholder (a statement "
+           "whose flag is wrong is formatted positionally and ends as 'argument not found')%s" %
+           (len(rows), N, "".join(TEMPLATE_ALPHABET).replace(" ", "<space>"), ("; first mismatches: " + "; ".join(examples)) if examples else ""),
+           loc="core/MacroMetadata.h")
 
 
 def _same_entity(a, b):
